@@ -846,6 +846,9 @@ class C10(Check):
                 r = unsx(out)
                 report["evaluations"] += 1
                 report["extra"]["concurrent_requests"] += 1
+                if len(r) >= 5 and r[4] in (0, 1):
+                    key = "cases_within_theorem_hypotheses" if r[4] == 1 else "cases_outside_theorem_hypotheses"
+                    report["extra"][key] = report["extra"].get(key, 0) + 1
                 fi = names(r[2])
                 if self.canon(o) != r[0]:
                     report["disagreements"] += 1
